@@ -115,3 +115,24 @@ def _v15(repo, mod):
     fn = repo.func(DS, "DynamicSlicer.check_explicit_data_dependency")
     c = find_node(fn, lambda x: isinstance(x, ast.Compare) and norm(x) == "hex(traced_instr.src_address) in context.var_address_uses")
     return replace_node(mod, c, "(hex(traced_instr.src_address) in set(context.var_address_uses))")
+
+
+@variant("C09", "jump-target-cache-by-node", EFB, "C09.node-key", "per-node cache on the flow builder (seed C09-c)")
+def _v16(repo, mod):
+    fn = repo.func(EFB, "ExecutionFlowBuilder._create_unique_instruction")
+    s = find_stmt(fn, lambda s: isinstance(s, ast.Assign) and norm(s.targets[0]) == "is_jump_target")
+    return insert_before(mod, s, "self._seen_nodes = getattr(self, '_seen_nodes', {})\nself._seen_nodes[node] = True")
+
+
+@variant("C09", "delete-subscr-traces-the-key", "pynguin.instrumentation.version.python3_10", "C09.operands", "DELETE_SUBSCR reports the key as the modified object (seed C09-d)")
+def _v17(repo, mod):
+    fn = repo.func("pynguin.instrumentation.version.python3_10", "CheckedCoverageInstrumentation.visit_subscr_access")
+    a = find_node(fn, lambda n: isinstance(n, ast.Attribute) and norm(n) == "InstrumentationSetupAction.COPY_SECOND_SHIFT_DOWN_TWO")
+    return replace_node(mod, a, "InstrumentationSetupAction.COPY_FIRST_SHIFT_DOWN_TWO")
+
+
+@variant("C09", "binary-subscr-traces-the-key", "pynguin.instrumentation.version.python3_10", "C09.operands", "BINARY_SUBSCR reports the key")
+def _v18(repo, mod):
+    fn = repo.func("pynguin.instrumentation.version.python3_10", "CheckedCoverageInstrumentation.visit_subscr_access")
+    a = find_node(fn, lambda n: isinstance(n, ast.Attribute) and norm(n) == "InstrumentationSetupAction.COPY_SECOND")
+    return replace_node(mod, a, "InstrumentationSetupAction.COPY_FIRST")
